@@ -29,7 +29,11 @@ CONSTANTS NKeys, NIds, MaxKeys, MaxIds, MaxWrites,
           WriterOps,     \* subset of {"set", "del", "drop", "rename", "append"}
           RecoverBak,    \* start-up restores -bak when the live file is missing
           MaxRounds,     \* process lifetimes (1: no Restart)
-          TruncNew       \* Start truncates a leftover rewrite target (as coded: os.Create)
+          TruncNew,      \* Start truncates a leftover rewrite target (as coded: os.Create)
+          SlogCompacts   \* deviation: a SET recorded in shrinklog directly after a SET of the same object REPLACES that
+                         \* entry ("the later position overwrites the earlier one anyway").  As coded FALSE: every
+                         \* command is appended.  Refuted: SET keeps the fields of the object it replaces and SET XX
+                         \* needs the object, so the earlier SET is not redundant
 
 Keys == 1..NKeys
 Ids == 1..NIds
@@ -51,6 +55,12 @@ Apply(m, c) ==
     [] c.op = "drop"   -> [m EXCEPT ![c.k] = EmptyCol]
     [] c.op = "rename" -> IF Exists(m, c.k) THEN [m EXCEPT ![c.k2] = m[c.k], ![c.k] = EmptyCol]
                           ELSE m                   \* key not found: the error is ignored by loadAOF
+    \* SET merges: "setf" SET ... FIELD f x <position> (value 3: position and field); "setp" SET <another position>
+    \* without the field: the field of the object it replaces is kept (4), none otherwise (5); "setxx" SET ... XX (6,
+    \* only when the object exists)
+    [] c.op = "setf"   -> [m EXCEPT ![c.k][c.id] = 3]
+    [] c.op = "setp"   -> [m EXCEPT ![c.k][c.id] = IF m[c.k][c.id] \in {3, 4} THEN 4 ELSE 5]
+    [] c.op = "setxx"  -> IF m[c.k][c.id] # Absent THEN [m EXCEPT ![c.k][c.id] = 6] ELSE m
     [] c.op = "append" -> IF m[c.k][c.id] # Absent THEN [m EXCEPT ![c.k][c.id] = m[c.k][c.id] + 10]
                           ELSE [m EXCEPT ![c.k][c.id] = 10]         \* a non-idempotent write (JSET path "-1")
 RECURSIVE Replay(_, _)
@@ -124,14 +134,21 @@ Cmds == {[op |-> "set", k |-> k, id |-> i, v |-> 2] : k \in Keys, i \in Ids}
    \cup {[op |-> "drop", k |-> k] : k \in Keys}
    \cup {[op |-> "rename", k |-> p[1], k2 |-> p[2]] : p \in {q \in Keys \X Keys : q[1] # q[2]}}
    \cup {[op |-> "append", k |-> k, id |-> i] : k \in Keys, i \in Ids}
-Updated(m, c) == IF c.op \in {"set", "append"} THEN TRUE ELSE Apply(m, c) # m
+   \cup {[op |-> o, k |-> k, id |-> i] : o \in {"setf", "setp", "setxx"}, k \in Keys, i \in Ids}
+IsSet(c) == c.op \in {"set", "setf", "setp", "setxx"}
+Updated(m, c) == IF c.op \in {"set", "append", "setf", "setp"} THEN TRUE
+                 ELSE IF c.op = "setxx" THEN m[c.k][c.id] # Absent ELSE Apply(m, c) # m
+\* what shrinklog holds after recording c
+Record(sl, c) == IF SlogCompacts /\ sl # <<>> /\ IsSet(sl[Len(sl)]) /\ IsSet(c)
+                    /\ sl[Len(sl)].k = c.k /\ sl[Len(sl)].id = c.id
+                 THEN [sl EXCEPT ![Len(sl)] = c] ELSE Append(sl, c)
 
 InLock == pc \in {"rename1", "rename2", "reopen"}      \* the swap holds the server lock
 Write(c) == /\ nw < MaxWrites /\ pc \notin {"done", "dead"} /\ (pc = "idle" => round > 1) /\ ~InLock
             /\ c.op \in WriterOps /\ Updated(mem, c)
             /\ mem' = Apply(mem, c)
             /\ live' = Append(live, c)
-            /\ slog' = IF shrinking THEN Append(slog, c) ELSE slog
+            /\ slog' = IF shrinking THEN Record(slog, c) ELSE slog
             /\ nw' = nw + 1
             /\ UNCHANGED <<newf, bak, shrinking, pc, keys, nextkey, keysdone, nextid, idsdone, recovered, round, stale>>
 
